@@ -34,8 +34,6 @@ class Buffer(PartHandler):
 
     def __init__(self, name = None, upstream = None, minimum_delay = 0,
                  capacity = None, value = 0):
-        super().__init__(name, upstream, 0, value)
-
         self._minimum_delay = minimum_delay
         if capacity == None:
             self._capacity = float('inf')
@@ -44,6 +42,10 @@ class Buffer(PartHandler):
         assert self._capacity >= 1, 'Capacity has to be at least 1.'
         self._buffer = []
         self._level = 0
+        # Fields are set before the base constructor because it will
+        # initialize the Asset right away if the simulation is already
+        # running.
+        super().__init__(name, upstream, 0, value)
 
     @PartHandler.cycle_time.getter
     def cycle_time(self):
